@@ -119,6 +119,12 @@ pub fn gen_scenario(r: &mut Rng, seed: u64) -> Scenario {
             c.corrupt = crate::sim::peers::Corrupt { flip: 120, wrong_offset: 20, wrong_index: 20, short: 20, long: 20, dup: 50, unrequested: 50, overlap: 20, prefer_completing: true };
             c.have = vec![true; n];
             persona = "corruptor";
+        } else if torrent.piece_len >= 32768 && r.chance(1, 2) {
+            c = crate::sim::peers::SeederCfg::honest(peer_id(k), vec![true; n]);
+            c.incoming = incoming;
+            c.unchoke_after_ms = Some(0);
+            c.mislabel = true;
+            persona = "mislabeller";
         }
         pdesc.push(json!({"addr": addr(k), "persona": persona, "incoming": incoming, "corrupt": format!("{:?}", c.corrupt), "disconnect": format!("{:?}", c.disc), "choke_plan": format!("{:?}", c.choke_plan)}));
         let c2 = c.clone();
